@@ -334,8 +334,8 @@ theorem mutated_signed_trailer_checksum_rejected (P : Params) (hcf : CollisionFr
 /-- **M5 (checksum value).** Whatever the signatures say, a trailer whose checksum value is not the
 checksum of the received payload is refused (`BadDigest`) unless an earlier check already failed. -/
 theorem wrong_trailer_checksum_rejected (P : Params) (ht : P.hasTrailer = true) (g : Bytes → Bytes)
-    (hg : P.cksum = some g) (hname : lower (trimSpace P.trailerName) = P.trailerName ∧ (58 : UInt8) ∉ P.trailerName)
-    (f : Frame) (v' : Bytes) (hl : f.trailerLine = P.trailerName ++ 58 :: v')
+    (hg : P.cksum = some g) (f : Frame) (n v' : Bytes) (hl : f.trailerLine = n ++ 58 :: v')
+    (hn : (58 : UInt8) ∉ n) (hname : lower (trimSpace n) = P.trailerName)
     (hv : trimSpace v' ≠ g ((f.chunks.map (·.1)).flatten)) :
     ∃ e, check P f = .error e := by
   unfold check
@@ -349,8 +349,8 @@ theorem wrong_trailer_checksum_rejected (P : Params) (ht : P.hasTrailer = true) 
       unfold validateTrailerChecksum
       rw [hg, hl]
       simp only
-      rw [cutColon_append _ _ hname.2]
-      simp only [hname.1, bne_self_eq_false, Bool.false_eq_true, if_false]
+      rw [cutColon_append _ _ hn]
+      simp only [hname, bne_self_eq_false, Bool.false_eq_true, if_false]
       rw [hacc]
       simp [hv]
     simp only [hv', ht, if_true]
@@ -365,8 +365,8 @@ theorem mutated_data_caught_by_checksum (P : Params) (ht : P.hasTrailer = true) 
     (f : Frame) (l1 l2 : List (Bytes × Bytes)) (d s d' : Bytes) (hf : f.chunks = l1 ++ (d, s) :: l2)
     (hl : f.trailerLine = P.trailerName ++ 58 :: g ((f.chunks.map (·.1)).flatten)) (hd : d' ≠ d) :
     ∃ e, check P { f with chunks := l1 ++ (d', s) :: l2 } = .error e := by
-  refine wrong_trailer_checksum_rejected P ht g hg hname { f with chunks := l1 ++ (d', s) :: l2 }
-    (g ((f.chunks.map (·.1)).flatten)) hl ?_
+  refine wrong_trailer_checksum_rejected P ht g hg { f with chunks := l1 ++ (d', s) :: l2 } P.trailerName
+    (g ((f.chunks.map (·.1)).flatten)) hl hname.2 hname.1 ?_
   rw [hval]
   intro e
   have := hcg _ _ e
@@ -1078,5 +1078,26 @@ theorem encode_longer (P : Params) (payload : Bytes) (sizes : List Nat) :
   rw [hdatas] at this
   simp only [List.length_append, crlf, List.length_cons, List.length_nil] at this ⊢
   omega
+
+/-- `hexL` of a non-empty string is non-empty -/
+theorem hexL_ne_nil (s : Bytes) (h : s ≠ []) : hexL s ≠ [] := by
+  cases s with
+  | nil => exact absurd rfl h
+  | cons c t => simp [hexL]
+
+/-- **A signed-trailer upload whose trailer section carries no (recognisable) signature line is
+refused**: an empty signature is never the trailer signature (a MAC tag is not empty). -/
+theorem finish_without_trailer_signature (P : Params) (ht : P.hasTrailer = true) (hts : P.trailerSigned = true)
+    (hmac : ∀ k m, P.c.hmac k m ≠ []) (prev payload rest : Bytes)
+    (hno : (readTrailerSection rest).2 = []) :
+    finish P prev payload rest = .error .sigMismatch := by
+  unfold finish
+  simp only [ht, if_true, hts, Bool.true_and]
+  have hne : (readTrailerSection rest).2 != trailerSig P prev (readTrailerSection rest).1 := by
+    rw [hno]
+    simp only [bne_iff_ne, ne_eq]
+    intro e
+    exact hexL_ne_nil _ (hmac _ _) e.symm
+  simp [hne]
 
 end Pithos.Chunked
